@@ -93,7 +93,11 @@ func (h VerifC12Conn) Snapshot() VerifC12Flow {
 
 // VerifC12TransportSnapshot reads the flow-control state of a Transport connection. Only call at quiescence.
 func VerifC12TransportSnapshot(cc *ClientConn) VerifC12Flow {
-	cc.mu.Lock()
+	// TryLock: at quiescence nobody should hold cc.mu (it is never held across a blocking call); if somebody does, the
+	// caller gets Valid == false instead of joining a deadlock
+	if !cc.mu.TryLock() {
+		return VerifC12Flow{}
+	}
 	defer cc.mu.Unlock()
 	f := VerifC12Flow{Valid: true, ConnOut: cc.flow.n, ConnInAvail: cc.inflow.avail, ConnInUnsent: cc.inflow.unsent,
 		MaxFrameSize: int32(cc.maxFrameSize), InitialSend: int32(cc.initialWindowSize)}
